@@ -245,9 +245,71 @@ def r5_default_fallback(ctx):
     ctx.need('C07.R5', 'method_not_allowed / not_found responses in default_fallback', None)
 
 
+def r6_fallbacks_of_this_router(ctx):
+    ctx.rule('C07.R6', 'P7: PathRouter::assign_fallbacks and check_method_not_allowed_fallbacks only look at the components of the router they are '
+             'building: every loop of these functions iterates (a value derived from) the `component_ids` parameter, never a registry of the '
+             'whole application (AuxiliaryData.*): with domain guards each domain has its own PathRouter and must not receive the prefixed '
+             'fallbacks of the others.')
+    NEXT = 'core::iter::traits::iterator::Iterator::next'
+    n = 0
+    for fn in ('assign_fallbacks', 'check_method_not_allowed_fallbacks'):
+        b = ctx.need('C07.R6', fn, ctx.fb.body('pavexc', UR + 'PathRouter::' + fn))
+        if b is None:
+            continue
+        defs = Defs(b)
+        ids_params = {i for i in range(1, b.raw['argc'] + 1) if 'Idx<' in b.locals[i] and ('[' in b.locals[i] or 'Vec' in b.locals[i])}
+        if not ctx.need('C07.R6', 'component_ids parameter of ' + fn, ids_params):
+            continue
+        heads = [(bb, t) for bb, t in b.calls() if callee(t) == NEXT and bb in b.reachable(b.succ(bb))]
+        for k, (bb, t) in enumerate(sorted(heads, key=lambda x: x[0])):
+            pl = op_place(t['args'][0])
+            _, locs = backward_slice(b, pl['l'], defs) if pl else ([], set())
+            params = {x for x in locs if 1 <= x <= b.raw['argc']}
+            n += 1
+            # a loop over a collection built locally (from the previous loop) has no parameter in its provenance
+            ok = bool(params & ids_params) or not params
+            ctx.ob('C07.R6', 'iterates-own-components|%s|loop#%d' % (fn, k + 1), ok, b.loc(bb, t),
+                   'loop #%d of %s iterates a value derived from parameter(s) %s (component_ids is parameter %s)' % (
+                       k + 1, fn, sorted(b.var_name(x) or x for x in params), sorted(ids_params)))
+    ctx.floor('C07.R6', 'loops in the fallback assignment functions', n, 2)
+
+
+def r7_method_arms(ctx):
+    from ..quote import chains
+    ctx.rule('C07.R7', 'P2 (template read from MIR): in codegen::router::path_router the match arm for the well-known methods of a handler '
+             '(`&Method::X | .. => invocation`) and the arm for its custom methods (`s if s.as_str() == ".." => invocation`) are emitted '
+             'independently: within one iteration over the handlers the custom arm is reachable after the well-known arm (a handler registered '
+             'for ["GET", "PURGE"] gets both; an if/else would drop one).')
+    b = ctx.need('C07.R7', 'codegen::router::path_router', ctx.fb.body('pavexc', PX + 'codegen::router::path_router'))
+    if b is None:
+        return
+    NEXT = 'core::iter::traits::iterator::Iterator::next'
+    heads = [bb for bb, t in b.calls() if callee(t) == NEXT and bb in b.reachable(b.succ(bb))]
+    chs = [(min(bb for bb, _ in ch), max(bb for bb, _ in ch), [t for _, t in ch]) for ch in chains(b)]
+    chs.sort()
+    wk_end = cu_start = None
+    for i, (lo, hi, toks) in enumerate(chs):
+        flat = [(t[0], str(t[1])) for t in toks]
+        if cu_start is None and ('ident', 's') in flat and ('ident', 'if') in flat:
+            cu_start = lo
+        if wk_end is None and ('punct', '&') in flat and not any(k == 'ident' and v in ('self', 'request', 'ApplicationState') for k, v in flat):
+            # the `=>` chain that follows closes the well-known arm
+            for lo2, hi2, toks2 in chs[i + 1:]:
+                if any(t[0] == 'punct' and str(t[1]) == '=>' for t in toks2):
+                    wk_end = hi2
+                    break
+    if ctx.need('C07.R7', 'well-known-methods arm template', wk_end) is None or ctx.need('C07.R7', 'custom-methods arm template', cu_start) is None:
+        return
+    ok = cu_start in b.reachable(b.succ(wk_end), avoid=heads)
+    ctx.ob('C07.R7', 'both-arms-per-handler', ok, b.loc(cu_start),
+           'the custom-methods arm (bb%d) is reachable after the well-known-methods arm (bb%d) without starting the next handler: %s' % (cu_start, wk_end, ok))
+
+
 def check(ctx):
     r1_detectors_gate(ctx)
     r2_nesting(ctx)
     r3_fallback_tree(ctx)
     r4_same_numbering(ctx)
     r5_default_fallback(ctx)
+    r6_fallbacks_of_this_router(ctx)
+    r7_method_arms(ctx)
